@@ -39,10 +39,11 @@ const (
 	sigJSONNlikeNonString     = "C07/rows-missing/json-nlike-non-string-value"
 	sigRangeNullOperand       = "C07/rows-missing/range-operator-null-operand"
 	sigJSONArrayDupCorrupted  = "C07/write/corrupted-index-json-array-duplicate-elements"
+	sigJSONRootScalarEq       = "C07/rows-missing/json-root-scalar-equality-never-matches"
 )
 
 var switchSigs = []string{sigJSONNullPanic, sigAllEmptyArray, sigInDuplicates, sigNlikeNull, sigJSONPathScanErr,
-	sigOrBranch, sigInListOrder, sigDeleteDeleted, sigInUnclosed, sigBlobMatcher, sigRelNe, sigScanOrderLaterKey, sigJSONRootOnLeaves, sigCompositeArrayEmpty, sigCompositeArrayDup, sigInvertedJoinDropsConds, sigInNullUnique, sigShowDeletedOrder, sigPartialUpdate, sigPartialUpdatePanic, sigJSONNullDocMissing, sigJSONRootScalarMatcher, sigIlikeInfixCase, sigJSONArrayDupCorrupted, sigInEmptyList, sigJSONNlikeNonString, sigRangeNullOperand}
+	sigOrBranch, sigInListOrder, sigDeleteDeleted, sigInUnclosed, sigBlobMatcher, sigRelNe, sigScanOrderLaterKey, sigJSONRootOnLeaves, sigCompositeArrayEmpty, sigCompositeArrayDup, sigInvertedJoinDropsConds, sigInNullUnique, sigShowDeletedOrder, sigPartialUpdate, sigPartialUpdatePanic, sigJSONNullDocMissing, sigJSONRootScalarMatcher, sigIlikeInfixCase, sigJSONArrayDupCorrupted, sigInEmptyList, sigJSONNlikeNonString, sigRangeNullOperand, sigJSONRootScalarEq}
 
 func pick[T any](t *rapid.T, label string, xs []T) T {
 	return xs[rapid.IntRange(0, len(xs)-1).Draw(t, label)]
@@ -200,6 +201,10 @@ func (g *gen) ops() []Op {
 			kind = "create"
 		}
 		op := Op{Kind: kind}
+		switch kind {
+		case "create", "update", "delete":
+			op.Via = []int{0, 0, 0, 1, 2, 1}[rapid.IntRange(0, 5).Draw(t, "via")]
+		}
 		switch kind {
 		case "create", "rcreate":
 			op.Doc = g.doc(true)
@@ -515,6 +520,10 @@ func (g *gen) leaf() *F {
 			if leaf.Val == "" {
 				leaf.Val = "1"
 			}
+		}
+		if len(leaf.Path) == 0 && leaf.Arr == "" && g.avoid(sigJSONRootScalarEq) {
+			// no condition on the JSON value itself at all: equality with a scalar never matches through the index
+			leaf.Path = []string{"h"}
 		}
 		if len(leaf.Path) == 0 && leaf.Arr == "" && chance(t, "jsonwhole", 40) && (leaf.Cmp == "_eq" || leaf.Cmp == "_ne") {
 			// compare the whole JSON value
